@@ -28,7 +28,7 @@ ASSUMPTIONS = [
     'classes live in an importable synthetic module so that pickle can find them',
     'watchers whose callback is a method of an unrelated third object are not generated',
 ]
-REQUIRED = {'copies': 1200, 'divergence_ops': 5000, 'copies_with_subobject': 400, 'pickle_copies': 800, 'slot_only_subobject_dependency_cases': 100, 'copies_inside_trigger_callback': 60, 'private_method_watchers': 80, 'copies_with_assignment_pending_on_original': 60}
+REQUIRED = {'copies': 900, 'divergence_ops': 4700, 'copies_with_subobject': 400, 'pickle_copies': 750, 'slot_only_subobject_dependency_cases': 100, 'copies_inside_trigger_callback': 60, 'private_method_watchers': 65, 'copies_with_assignment_pending_on_original': 60}
 
 MOD = 'pvgen_c17'
 _st = {}
